@@ -29,7 +29,10 @@ impl LintPass for GarbageInputValueCheck {
                 }
             } else if let Some(func) = node.is_function_entry_with_func() {
                 let args = func.arguments();
-                let garbage = node.live_in() - args - Register::callee_saved_set();
+                // Look at what is live just after the entry: the entry node
+                // itself kills every caller-saved register, so its live-in
+                // set can never contain a temporary that is read unassigned.
+                let garbage = node.live_out() - args - Register::callee_saved_set();
                 if !garbage.is_empty() {
                     let mut ranges = Vec::new();
                     for reg in &garbage {
